@@ -20,7 +20,8 @@ import (
 
 var errPosRe = regexp.MustCompile(`at line (-?\d+) and column (-?\d+)`)
 
-func runErrPosCase(c *Ctx, what string, text string) {
+// expect >= 0: the rune offset (within the trimmed text) of the token the error must point at
+func runErrPosCase(c *Ctx, what string, text string, expect ...int) {
 	op := fmt.Sprintf("errpos %s %s", what, strRunes(text))
 	var msg string
 	st := safeCallT(5*time.Second, func() string {
@@ -54,6 +55,14 @@ func runErrPosCase(c *Ctx, what string, text string) {
 	var toks []tk
 	safeCallT(5*time.Second, func() string { toks = conv(t.TokenizeBuffer(strings.Trim(text, " \t\r\n"))); return "" })
 	// the parsers trim the text first: positions are those within the trimmed text
+	if len(expect) == 1 && expect[0] >= 0 {
+		trimmed := strings.Trim(text, " \t\r\n")
+		wl, wc := freshLC(trimmed, expect[0]+1)
+		if line != wl || col != wc {
+			c.fail(Failure{Kind: "oracle", Op: fmt.Sprintf("%s %d", op, expect[0]), Impl: msg, Note: fmt.Sprintf("the error %q quotes position %d:%d; the offending token - the first one the parser cannot use, at offset %d of %q - starts at %d:%d", msg, line, col, expect[0], trimmed, wl, wc)})
+		}
+		return
+	}
 	var where []string
 	for _, k := range toks {
 		if k.Line == line && k.Col == col {
@@ -73,6 +82,20 @@ func propErrorPositions(c *Ctx) {
 			runErrPosCase(c, "e", p+b+"\n + 1")
 		}
 	}
+	// the offending token of the canonical malformed expressions: the first token the parser cannot use
+	offending := []struct {
+		text string
+		off  int
+	}{{"a b", 2}, {"a ]", 2}, {"a IS", 2}, {"1 +* 2", 3}, {"1 2", 2}, {"f(1 2)", 4}, {"a[1 2]", 4}, {"a NOT b", 2}, {")", 0}, {"a IS b", 2}, {"(1,2)", 2}, {"f(,1)", 2},
+		{"a[]", 2}, {"()", 1}, {"a = = b", 4}, {"1 ? 2", 2}, {"4e38", 0}, {"99999999999999999999", 0}, {"1 + ?", 4}, {"y * 4e38", 4}, {"f(1, 2 3)", 7}, {"(a + (b c))", 8}}
+	for _, p := range pre {
+		for _, b := range offending {
+			full := p + b.text
+			trimmed := strings.Trim(full, " \t\r\n")
+			at := len([]rune(trimmed)) - len([]rune(b.text)) + b.off
+			runErrPosCase(c, "e", full, at)
+		}
+	}
 	tbad := []string{"{{a", "{{#a}}x", "x{{/a}}", "{{#a}}x{{/b}}", "{{a}}}", "{{{a}}", "{{/}}", "{{}}", "{{a b}}", "{{#if}}", "{{^}}x"}
 	tpre := []string{"", "text ", "line one\nline two ", "a\r\nb\n  {{x}} ", "{{#s}}\n  in "}
 	for _, p := range tpre {
@@ -86,8 +109,13 @@ func propErrorPositions(c *Ctx) {
 
 func replayErrPos(c *Ctx, op string) bool {
 	f := strings.Fields(op)
-	if len(f) != 3 || f[0] != "errpos" {
+	if (len(f) != 3 && len(f) != 4) || f[0] != "errpos" {
 		return false
+	}
+	if len(f) == 4 {
+		at, _ := strconv.Atoi(f[3])
+		runErrPosCase(c, f[1], string(parseRunes(f[2])), at)
+		return true
 	}
 	runErrPosCase(c, f[1], string(parseRunes(f[2])))
 	return true
